@@ -58,7 +58,7 @@ CLAIMED = {
   "As C04."),
  "C14": ("exploration", "DESIGN.md §4 C14",
   "seeded set/start/append/stop histories on the real raw writer through the real HAL and the real write-all loop of platform.c, over a simulated file layer that returns short and zero-length writes and holds multi-GiB files sparsely (a `huge` profile grows one file past 4 GiB); file bytes compared with the concatenation of the appended packets",
-  "Seeded search over histories (1-2 devices, 1-4 acquisitions each to a fresh path, every URI spelling, packet groupings, frame sizes) and over OS write behaviours (random short writes of every length, spaced zero-length writes); after each stop the file at the prefix-stripped path must equal the bytes appended in that acquisition.",
+  "Seeded search over histories (1-2 devices, 1-4 acquisitions each to a fresh path, every URI spelling, packet groupings, frame sizes) and over OS write behaviours (random short writes of every length, spaced zero-length writes); after each stop - and after a set on a running device, accepted or refused, which ends the acquisition being written - the file at the prefix-stripped path must equal the bytes appended in that acquisition.",
   "Every acquisition uses a fresh path (files are created without truncation). Profile transient sweeps a failing write over every position: an acquisition in which every call reported success is judged like a fault-free one; after a reported failure only the acknowledged bytes are claimed (the file must begin with them)."),
  "C15": ("exploration", "DESIGN.md §4 C15",
   "seeded histories on the real tiff and tiff-json writers over the simulated file layer (incl. a `huge` profile whose file grows past 4 GiB, held sparsely); produced bytes parsed by an independent BigTIFF reader and JSON parser written from the specifications",
